@@ -270,6 +270,20 @@ func (e *fnEnc) uncontractedCall(c *blockCtx, in ssa.Instruction, name string, s
 	if name == "" {
 		name = "dynamic call"
 	}
+	if neutralStdlib(name) {
+		// standard-library functions that compute on their arguments only (string and
+		// path manipulation, formatting, logging, arithmetic): no effect on program
+		// memory reachable by the functions under contract; results unconstrained
+		e.assume("assumed A-ext: " + shortCallee(name) + " has no effect on program memory (standard library, no contract: result unconstrained)")
+		na := e.freshConst("alloc@c", SInt)
+		e.assert(le(c.st.alloc, na))
+		c.st.alloc = na
+		res := e.resultTerms(c, in, sig, "call")
+		for i, r := range res {
+			e.assert(e.existsAt(r, sig.Results().At(i).Type(), c.st.alloc))
+		}
+		return res
+	}
 	e.assume("uncontracted call havocs the heap: " + shortCallee(name) + " in " + e.shortFuncName())
 	e.havocAll(c.st)
 	res := e.resultTerms(c, in, sig, "call")
@@ -1344,4 +1358,54 @@ func (e *fnEnc) fieldLoc(base SVal, name string) (*structInfo, int, Term) {
 		cur = e.structOf(f.typ)
 	}
 	return cur, path[len(path)-1], ref
+}
+
+// neutralStdlib: standard-library functions without a contract that are treated
+// as heap-neutral (listed as an assumption wherever used). Deliberately narrow:
+// whole packages only where every exported function computes on its arguments.
+func neutralStdlib(name string) bool {
+	// name is like "strings.TrimSuffix", "(*strings.Builder).WriteByte", "path/filepath.Base"
+	if strings.HasPrefix(name, "(") {
+		return false // methods may mutate their receiver
+	}
+	k := strings.LastIndex(name, ".")
+	if k < 0 {
+		return false
+	}
+	pkg, fn := name[:k], name[k+1:]
+	switch pkg {
+	case "strings", "strconv", "unicode", "unicode/utf8", "unicode/utf16", "math", "math/bits", "path", "cmp":
+		return true
+	case "path/filepath":
+		switch fn {
+		case "Base", "Dir", "Join", "Clean", "Ext", "Rel", "ToSlash", "FromSlash", "IsAbs", "Split", "Match", "VolumeName", "IsLocal":
+			return true
+		}
+	case "bytes":
+		switch fn {
+		case "Equal", "Compare", "Contains", "ContainsAny", "ContainsRune", "Count", "HasPrefix", "HasSuffix", "Index", "IndexByte", "IndexAny", "IndexRune", "LastIndex", "LastIndexByte", "EqualFold":
+			return true
+		}
+	case "fmt":
+		switch fn {
+		case "Sprintf", "Sprint", "Sprintln", "Errorf":
+			return true
+		}
+	case "log":
+		switch fn {
+		case "Printf", "Print", "Println":
+			return true
+		}
+	case "errors":
+		switch fn {
+		case "New", "Is", "Unwrap":
+			return true
+		}
+	case "slices":
+		switch fn {
+		case "Contains", "Index", "Equal", "Compare", "IsSorted", "Max", "Min", "BinarySearch":
+			return true
+		}
+	}
+	return false
 }
